@@ -92,7 +92,7 @@ func grammarMain(r *run.Runner, spans bool) {
 							grammarCase(w, pr.Layout(pr.Uniform(sep)), spans, "expr-layout")
 						}
 						// one gap at a time: a line break (or a comment, a tab) in exactly one place of an otherwise blank-free source
-						for _, one := range []string{"\n", "\r\n    ", " // c\n", "\t"} {
+						for _, one := range []string{"\n", "\r\n    ", " // c\n", "\t", "\n\n", " // c\n // d\n", "\n// c\n\n  "} {
 							base := pr.Uniform("")
 							for gi := range base {
 								seps := append([]string{}, base...)
